@@ -47,7 +47,7 @@ func (c01Engine) Decode(raw []byte) (interface{}, error) {
 
 func c01GenCfg(r *RNG, rep string, d *EnvData) GenCfg {
 	cfg := GenCfg{Budget: r.Range(4, 40), Calls: true, Dyn: r.Chance(2, 3), Failing: r.Chance(3, 4), Strings: r.Chance(3, 4),
-		Closures: r.Chance(4, 5), Maps: r.Chance(2, 3), Objects: r.Chance(3, 4), ShortPred: r.Chance(2, 3), NilSafe: r.Chance(1, 2), SliceCall: true}
+		Closures: r.Chance(4, 5), Maps: r.Chance(2, 3), Objects: r.Chance(3, 4), ShortPred: r.Chance(2, 3), NilSafe: r.Chance(1, 2), SliceCall: true, Pow: true}
 	cfg.AnyUsable = rep != RepMap || (d.Any != nil && d.Any.Kind == "int")
 	cfg.MapRep = rep == RepMap
 	return cfg
